@@ -31,7 +31,7 @@ pub fn scenarios(thorough: bool) -> Vec<Scenario> {
     ];
     let mut two = crate::props::c01::pool_cfg();
     two.seal_actions = vec![None, Some(action_dest(1))];
-    v.push(sc("custom02-pools-history", NetID::Custom02, 0, two, if thorough { 9 } else { 7 }));
+    v.push(sc("custom02-pools-history", NetID::Custom02, 0, two, if thorough { 9 } else { 6 }));
     if thorough {
         v.push(sc("testnet-requests", NetID::Testnet, 0, cfg_requests(), 7));
         v.push(sc("custom08-requests", NetID::Custom08, 0, cfg_requests(), 6));
